@@ -266,6 +266,11 @@ def build_special(case):
         coder = [{"m": RC.M_LZMA2, "dict": 1 << 20}]
         body, rec = wrap(hdr, b"")
         return RW.seal(body, rec)
+    if what.startswith("biglink"):
+        # a member flagged as symbolic link whose "target text" is hundreds of MiB of zeros (a few dozen KiB packed)
+        mib = int(what[7:])
+        files = [{"name": "l", "data": bytes(mib << 20), "attr": S.A_LINK, "mtime": 132000000000000000}]
+        return RW.build(files, [{"coders": [{"m": RC.M_LZMA2, "dict": 1 << 16}], "n": 1}], {"header": "raw"}).data
     if what.startswith("nested"):
         depth = int(what[6:])
         payload = inner
@@ -416,6 +421,10 @@ class C05(Check):
             if env.mine(j):
                 yield {"kind": "special", "what": what, "coder": "copy", "crc": True, "seed": "copy", "ops": [], "calls": ["getnames", "testzip"], "pw": "none",
                        "how": "stream"}
+        j += 1
+        if env.mine(j):
+            yield {"kind": "special", "what": "biglink600", "coder": "copy", "crc": True, "seed": "copy", "ops": [], "calls": ["getnames", "extractall_path"], "pw": "none",
+                   "how": "path"}
         yield from self.sweep(env, 1 << 20)
         # explicit histories the property names: extract twice without reset, testzip after extractall, on every seed
         i = 0
